@@ -840,6 +840,20 @@ def builtin_allany(interp, py, v):
                 return r
         raise Undecided('all/any over symbolic sequence')
     k, s = interp.as_iterable(v)
+    if k == 'sym':
+        # a (lazily mapped) list of unknown length: same rule as for a lazy iterable, on one arbitrary element
+        ctx = interp.ctx
+        n = getattr(interp, '_allany_n', 0)
+        interp._allany_n = n + 1
+        body = s[1](('arbitrary', 'allany_list%d' % n))
+        try:
+            bz = body if z3.is_expr(body) else z3.BoolVal(bool(interp.truth(body)))
+        except Undecided:
+            raise Undecided('all/any over symbolic sequence')
+        r = z3.Bool(ctx.fresh('result_of_%s' % py.__name__))
+        ctx.assume(z3.Implies(s[0] == 0, r if py is all else z3.Not(r)))
+        ctx.assume(z3.Implies(r, bz) if py is all else z3.Implies(bz, r))
+        return r
     if k != 'concrete':
         raise Undecided('all/any over symbolic sequence')
     if py is all:
